@@ -89,8 +89,11 @@ fn build_synth(spec: &[&str]) -> Option<Fixture> {
     b.u8(1).unwrap().array(2).unwrap();
     for (i, coin) in [out1, out2].iter().enumerate() {
         let addr = synth::key_address(if i == 0 { outnet } else { network }, &synth::key(200));
-        if post { b.map(2).unwrap().u8(0).unwrap().bytes(&addr).unwrap().u8(1).unwrap(); } else { b.array(2).unwrap().bytes(&addr).unwrap(); }
+        // `outdh` (Alonzo): output 0 carries a datum hash `[address, value, hash]` -- the min-ada rule charges 10 more words for it
+        let dh = i == 0 && era == Era::Alonzo && opt("outdh").is_some();
+        if post { b.map(2).unwrap().u8(0).unwrap().bytes(&addr).unwrap().u8(1).unwrap(); } else { b.array(2 + dh as u64).unwrap().bytes(&addr).unwrap(); }
         if minting && i == 0 { b.array(2).unwrap().u64(*coin).unwrap().map(1).unwrap().bytes(policy.as_ref()).unwrap().map(1).unwrap().bytes(&[0x54]).unwrap().u64(5).unwrap(); } else { b.u64(*coin).unwrap(); }
+        if dh { b.bytes(&[0x33; 32]).unwrap(); }
     }
     b.u8(2).unwrap().u64(fee).unwrap();
     if let Some(t) = ttl { b.u8(3).unwrap().u64(t).unwrap(); }
@@ -877,6 +880,7 @@ fn generate_inner(g: &mut Gen) {
     for era in ["shelley", "mary", "alonzo", "babbage", "conway"] {
         bases.push(format!("sy:{era}"));
         for o in ["ins0", "nottl", "ttl=5", "start=999999999999", "netid=0", "netid=1", "outnet=0", "outcoin=100", "outcoin=999999", "auxhash", "aux", "auxbad", "mint", "mintnoscript", "req", "reqnosig"] { bases.push(format!("sy:{era}:{o}")); }
+        if era == "alonzo" { for o in ["outdh", "outdh:mint", "outdh:outcoin=1200000"] { bases.push(format!("sy:{era}:{o}")); } }
     }
     // structural variants: every combination of the optional fields a rule's code branches on (collateral x reference inputs),
     // the other optional fields alone and all together; on each of them every rule is broken alone by one mutator
